@@ -169,7 +169,7 @@ type c02ExCase struct {
 func TestC02Exclusion(t *testing.T) {
 	kit.Run(t, kit.Spec[c01Case]{
 		Prop: "C02",
-		Rule: "packet-scan commands over a /24../29 subnet or a target file (4- and 16-byte spellings) with 1..6 exclusion entries that intersect the target: hosts, CIDRs, nested and overlapping blocks, first/last address of blocks; oracle as C01 (probes = denotation minus exclusions, both directions: no probe into an excluded address, every non-excluded address still probed). non-trivial: exclusion removes some but not all targets; distinct by case",
+		Rule: "packet-scan commands over a /24../29 subnet or a target file (4- and 16-byte spellings) with 1..6 exclusion entries that intersect the target (one case in eight: 350..900 further single-host lines, a file of 5..13 KiB): hosts, CIDRs, nested and overlapping blocks, first/last address of blocks; oracle as C01 (probes = denotation minus exclusions, both directions: no probe into an excluded address, every non-excluded address still probed). non-trivial: exclusion removes some but not all targets; distinct by case",
 		Gen: func(t *rapid.T) c01Case {
 			c := c01Case{Cmd: rapid.SampledFrom(c01PacketCmds).Draw(t, "cmd"), Seed: rapid.Int64().Draw(t, "seed"), PortsVia: "p"}
 			base := strings.Fields(c.Cmd)[0]
@@ -218,6 +218,12 @@ func TestC02Exclusion(t *testing.T) {
 					bits := rapid.IntRange(28, 31).Draw(t, "exbits")
 					sz := uint32(1) << uint(32-bits)
 					c.Spec.Exclude = append(c.Spec.Exclude, fmt.Sprintf("%s/%d", gram.U32String(a/sz*sz+sz), bits))
+				}
+			}
+			if rapid.IntRange(0, 7).Draw(t, "long-host-list") == 0 {
+				// a script-made exclusion list: hundreds of single hosts, one per line (the file is longer than any read buffer)
+				for k, n := 0, rapid.IntRange(350, 900).Draw(t, "nhosts"); k < n; k++ {
+					c.Spec.Exclude = append(c.Spec.Exclude, gram.U32String(addrs[kit.Uniform(t, "exhost", len(addrs))]))
 				}
 			}
 			if base != "arp" {
